@@ -9,6 +9,7 @@ import B2Z.Model.IndexBytes
 import B2Z.Model.Icf
 import B2Z.Model.Pipeline
 import B2Z.Model.Schema
+import B2Z.Model.ExplodeProto
 /-! JSON line-protocol driver: one request object per line in, one JSON value per line out.
     Only `Model.*` (core Lean) is imported, so this also builds as a native executable. -/
 open Lean
@@ -106,6 +107,45 @@ def parseChunks (v : Json) : Except String (List Chunk) := do
   a.toList.mapM fun c => do
     let l ← natList c
     pure (⟨l.getD 0 0, l.getD 1 0⟩ : Chunk)
+
+def vJson : Fs.V → Json
+  | .absent => Json.str "absent" | .torn => Json.str "torn" | .ok => Json.str "ok"
+
+def xpObjName : XP.Obj → String
+  | .root => "root" | .wipDir => "wipDir" | .header => "header" | .plan => "plan" | .final => "final"
+  | .shared k => s!"shared:{k}" | .summary j => s!"summary:{j}" | .data j k => s!"data:{j}:{k}"
+
+def xpCfg (j : Json) : Except String XP.Cfg := do
+  let nParts ← reqNat j "n_parts"; let nShared ← reqNat j "n_shared"
+  let seqs ← (← reqArr j "data_seq").toList.mapM fun p => do
+    (← p.getArr?).toList.mapM fun e => do
+      let a ← e.getArr?
+      let k ← (a.getD 0 Json.null).getNat?
+      let d ← (a.getD 1 Json.null).getBool?
+      pure (k, d)
+  let rm ← (← reqArr j "rm_order").toList.mapM fun v => match v with
+    | .null => pure (none : Option Nat)
+    | x => x.getNat?.map some
+  pure { nParts := nParts, nShared := nShared, dataSeq := fun i => seqs.getD i [], rmOrder := rm }
+
+def xpCmd (v : Json) : Except String (XP.Cmd × Option Nat) := do
+  let c ← (← v.getObjVal? "cmd").getStr?
+  let kill := optNat v "kill"
+  match c with
+  | "init" => pure (.init, kill)
+  | "finalise" => pure (.finalise, kill)
+  | "partition" => pure (.partition (← reqNat v "j"), kill)
+  | _ => throw "bad cmd"
+
+def xpAllObjs (c : XP.Cfg) : List XP.Obj :=
+  [.root, .wipDir, .header, .plan, .final] ++ (List.range c.nShared).map .shared ++
+  (List.range (c.nParts + 2)).map .summary ++
+  (List.range (c.nParts + 1)).flatMap fun j => ((c.dataSeq j).map (·.1)).eraseDups.map fun k => .data j k
+
+def stepJson (name : α → String) : Fs.Step α (Fs.St α) → Json
+  | .set o v => Json.arr #[Json.str "set", Json.str (name o), vJson v]
+  | .move ps => Json.arr #[Json.str "move", Json.arr (ps.map fun (a, b) => Json.arr #[Json.str (name a), Json.str (name b)]).toArray]
+  | .check _ => Json.arr #[Json.str "check"]
 
 def handle (j : Json) : Except String Json := do
   let op ← (← j.getObjVal? "op").getStr?
@@ -320,6 +360,19 @@ def handle (j : Json) : Except String Json := do
       | .ok x => (intList x).map some
       | .error _ => pure none
     pure (optJson intsJson (Schema.intRow dt w v))
+  | "xp.hist" =>
+    let c ← xpCfg j
+    let hist ← (← reqArr j "history").toList.mapM xpCmd
+    let (st, outs) := hist.foldl (fun (acc : XP.S × List Json) (h : XP.Cmd × Option Nat) =>
+      let prog := XP.prog c acc.1 h.1
+      let o := XP.step c acc.1 h.1 h.2
+      let full := XP.step c acc.1 h.1 none
+      (o.st, acc.2 ++ [Json.mkObj [("error", Json.bool o.error), ("muts", Json.num (JsonNumber.fromNat o.muts)),
+        ("total_muts", Json.num (JsonNumber.fromNat full.muts)),
+        ("prog", Json.arr ((prog.filter fun s => match s with | .check _ => false | _ => true).map (stepJson xpObjName)).toArray)]]))
+      (Fs.empty, [])
+    let state := (xpAllObjs c).filterMap fun o => if st o = .absent then none else some (xpObjName o, vJson (st o))
+    pure (Json.mkObj [("steps", Json.arr outs.toArray), ("state", Json.mkObj state), ("loads", Json.bool (XP.loads st))])
   | _ => throw s!"unknown op {op}"
 
 def handleLine (line : String) : String :=
